@@ -31,6 +31,7 @@ def main():
     ap.add_argument("--seed", type=int, default=1)
     ap.add_argument("--workers", type=int, default=5)
     ap.add_argument("--files", nargs="*")
+    ap.add_argument("--always-test", action="store_true", help="run the repository's suite on caught mutants too")
     a = ap.parse_args()
     anchors = collections.defaultdict(list)
     for l in open(os.path.join(ROOT, "properties.jsonl")):
@@ -105,8 +106,9 @@ def main():
                                 r["status"] = "hang" if ("-9" in out or rc == -9) else "inconclusive"
                                 r["msg"] = out[-300:]
                                 break
-                        rc, out = sh(["go", "test", "-vet=off", "-count=1", "-timeout", "90s", "./..."], wt, 400)
-                        r["tests"] = "pass" if rc == 0 else "fail"
+                        if r["status"] != "caught" or a.always_test:
+                            rc, out = sh(["go", "test", "-vet=off", "-count=1", "-timeout", "90s", "./..."], wt, 400)
+                            r["tests"] = "pass" if rc == 0 else "fail"
                 finally:
                     open(path, "wb").write(orig)
                 with lock:
